@@ -93,11 +93,12 @@ let fuel_for (budget : int) : nat =
 (* Run one model engine; returns (status, steps, matches). *)
 let run_model (engine : string) (prog : program) (h : n list) (start : int) (budget : int) : string * int * imatch list =
   let ascii = (engine = "bta" || engine = "pka") in
+  let prog = if engine = "btx" || engine = "pkx" then { prog with p_start_pred = SPArbitrary } else prog in
   let fuel = fuel_for budget in
   let fin (ms, res, steps) =
     let st = match res with IterDone -> "ok" | IterError e -> "err:" ^ err_name e | IterBudget -> "budget" in
     (st, int_of_n steps, List.map conv_match ms) in
-  if engine = "bt8" || engine = "bta" then
+  if engine = "bt8" || engine = "bta" || engine = "btx" then
     let ((((ms, res), steps), _), _) = drv_bt ascii prog h (n_of_int budget) fuel (nat_of_int start) in fin (ms, res, steps)
   else
     let ((((ms, res), steps), _), _) = drv_pk ascii prog h (n_of_int budget) fuel (nat_of_int start) in fin (ms, res, steps)
@@ -235,6 +236,13 @@ let main_exec () =
     (match find "bta", find "pka" with
      | Some a, Some b -> if both_ok a b && not (same a b) then viol "C02" (Printf.sprintf "bta=%s/pka=%s" (show_matches a.ms) (show_matches b.ms))
      | _ -> ());
+    (* C04: the derived start predicate is transparent *)
+    (match find "bt8", find "btx" with
+     | Some a, Some b -> if both_ok a b && not (same a b) then viol "C04" (Printf.sprintf "bt:prefilter=%s/arbitrary=%s" (show_matches a.ms) (show_matches b.ms))
+     | _ -> ());
+    (match find "pk8", find "pkx" with
+     | Some a, Some b -> if both_ok a b && not (same a b) then viol "C04" (Printf.sprintf "pk:prefilter=%s/arbitrary=%s" (show_matches a.ms) (show_matches b.ms))
+     | _ -> ());
     (match find "bt8", find "bta" with
      | Some a, Some b -> if both_ok a b && not (same a b) then viol "C13" (Printf.sprintf "bt8=%s:%s/bta=%s:%s" a.status (show_matches a.ms) b.status (show_matches b.ms))
      | _ -> ());
@@ -326,4 +334,5 @@ let main_exec () =
 let () =
   match Array.to_list Sys.argv with
   | _ :: "api" :: _ -> Apidrv.run ()
+  | _ :: "spec" :: _ -> Specdrv.run ()
   | _ -> main_exec ()
